@@ -32,8 +32,8 @@ var (
 
 type urow struct {
 	P, S, W, H, T int // component indexes, S = -1 for rows outside the product
-	Null       bool
-	Text       string
+	Null          bool
+	Text          string
 }
 
 type ucase struct {
@@ -278,7 +278,7 @@ func (g *urlGrid) classify() {
 		o := g.out[k.c]
 		g.viol = append(g.viol, violation{Sig: s,
 			Desc: fmt.Sprintf("%s on url=%s: DuckDB gives %s, Arc's CASE rewrite gives %s", k.c.expr(), g.rows[k.r].Text, o.Orig[k.r], o.Rew[k.r]),
-			Replay: map[string]any{"original_sql": k.c.sql(), "rewritten_sql": o.Rewrite, "url": g.rows[k.r].Text,
+			Replay: map[string]any{"standalone_original_sql": fmt.Sprintf("SELECT i, %s FROM (SELECT 0 AS i, CAST('%s' AS VARCHAR) AS url) u", k.c.expr(), strings.ReplaceAll(g.rows[k.r].Text, "'", "''")), "original_sql": k.c.sql(), "rewritten_sql": o.Rewrite, "url": g.rows[k.r].Text,
 				"duckdb_original": o.Orig[k.r].String(), "arc_rewritten": o.Rew[k.r].String()},
 			Instances: k.n})
 	}
